@@ -61,6 +61,14 @@ def with_set_order(order, f):
 
 
 def run_once(rules, strat, names):
+    """one build + queries; a library exception is part of the (comparable) result, not a harness error"""
+    try:
+        return _run_once(rules, strat, names)
+    except Exception as e:
+        return {"exception": type(e).__name__ + ": " + str(e)[:200]}
+
+
+def _run_once(rules, strat, names):
     from biobalm import SuccessionDiagram
     from biobalm.control import succession_control
     sd = SuccessionDiagram.from_rules(rules)
@@ -93,10 +101,34 @@ def run_once(rules, strat, names):
 
 
 def unrelated():
+    """an unrelated history: another network built with the default configuration, with a custom configuration obtained
+    the documented way (default_config() + changes), with its configuration changed after construction, pickled,
+    reclaimed and controlled - none of which may influence a diagram built afterwards"""
+    import pickle
     from biobalm import SuccessionDiagram
+    from biobalm.control import succession_control
     o = SuccessionDiagram.from_rules(OTHER)
     o.build()
     o.summary()
+    cfg = SuccessionDiagram.default_config()
+    cfg.update({"max_motifs_per_node": 1, "attractor_candidates_limit": 1, "retained_set_optimization_threshold": 0,
+                "nfvs_size_threshold": 0, "minimum_simulation_budget": 1})
+    for mutate_after in (False, True):
+        try:
+            o2 = SuccessionDiagram.from_rules(OTHER) if mutate_after else SuccessionDiagram.from_rules(OTHER, config=cfg)
+            if mutate_after:
+                for k, v in cfg.items():
+                    o2.config[k] = v
+            o2.expand_bfs()
+            o2.expanded_attractor_seeds()
+        except Exception:
+            pass        # a limit error of the unrelated diagram is its own business
+    try:
+        o3 = pickle.loads(pickle.dumps(o))
+        o3.reclaim_node_data()
+        succession_control(SuccessionDiagram.from_rules(OTHER), {"x": 1}, successful_only=False)
+    except Exception:
+        pass
 
 
 def fresh_process(rules, strat, names, hashseed):
@@ -158,7 +190,8 @@ def execute(rules, strat, names, cross=True):
 
 
 def assertion(B, out):
-    parts = [("second build in the same process (after an unrelated diagram) gives identical ids, spaces, edges, motifs, depths, seeds, interventions",
+    parts = [("the first build raises no exception (" + str(out["a"].get("exception")) + ")", B.const("exception" not in out["a"])),
+             ("second build in the same process (after an unrelated diagram) gives identical ids, spaces, edges, motifs, depths, seeds, interventions",
               B.const(out["a"] == out["b"]))]
     parts.append(("results do not depend on the iteration order of sets (ascending vs descending order forced inside the library)",
                   B.const(out["asc"] == out["desc"] and out["asc"] == out["a"])))
